@@ -234,9 +234,20 @@ fn vp_native_settings_sequences() {
                     SAppend(0, "X-A", "s3"), SAppend(0, "Accept", "text/x"), SAppend(1, "X-A", "s4"), SClone(0), SGet(0), SGet(1), BMaxH(3), BFollow(false), BCompress(false), BCompress(true), BMaxR(1),
                     BHeader("x-a", "b1"), BAppend("X-A", "b2"), BHeader("User-Agent", "ua"), BAppend("accept", "b/acc"),
                     STimeout(0, 3), SReadT(1, 7), SCerts(0, true), BTimeout(1), BCerts(true)];
-    let check = |what: &str, seq: &[Op], p: &PreparedRequest<body::Empty>, m: &M| {
-        let vals = |n: &str| -> Vec<String> { p.headers().get_all(n).iter().map(|v| v.to_str().unwrap().to_string()).collect() };
+    let check = |what: &str, seq: &[Op], p: &mut PreparedRequest<body::Empty>, m: &M| {
         let ctx = format!("{} after {:?}", what, seq);
+        // what the request says on the wire is what its header map holds: every value of every name, in order
+        let url = p.url().clone();
+        set_host(&mut p.headers, &url).unwrap();
+        let mut wire = Vec::new();
+        p.write_request(&mut wire, &url, None).unwrap();
+        let sent = decode_request(&wire);
+        for n in ["x-a", "accept", "user-agent", "accept-encoding", "host", "connection"] {
+            let held: Vec<Vec<u8>> = p.headers().get_all(n).iter().map(|v| v.as_bytes().to_vec()).collect();
+            let on_wire: Vec<Vec<u8>> = header(&sent, n).into_iter().map(|v| v.to_vec()).collect();
+            assert_eq!(on_wire, held, "the values of {} written to the connection are the values the request holds ({})", n, ctx);
+        }
+        let vals = |n: &str| -> Vec<String> { p.headers().get_all(n).iter().map(|v| v.to_str().unwrap().to_string()).collect() };
         assert_eq!((p.base_settings.max_headers, p.base_settings.max_redirections, p.base_settings.follow_redirects, p.base_settings.allow_compression),
                    (m.max_headers, m.max_redirections, m.follow, m.compress), "settings of {}", ctx);
         assert_eq!((p.base_settings.timeout.map(|d| d.as_secs()), p.base_settings.read_timeout.as_secs(), p.base_settings.accept_invalid_certs), (m.timeout, m.read_timeout, m.invalid_certs), "timeouts / certificate flag of {}", ctx);
@@ -283,8 +294,8 @@ fn vp_native_settings_sequences() {
             }
             if valid {
                 cases += 1;
-                for (k, (b, m)) in builders.iter_mut().enumerate() { let p = b.take().unwrap().prepare(); check(&format!("request {}", k), &seq, &p, m); }
-                for (k, (s, m)) in sessions.iter().enumerate() { let p = s.get("http://h.test/").prepare(); check(&format!("session {} (seen through a fresh request)", k), &seq, &p, m); }
+                for (k, (b, m)) in builders.iter_mut().enumerate() { let mut p = b.take().unwrap().prepare(); check(&format!("request {}", k), &seq, &mut p, m); }
+                for (k, (s, m)) in sessions.iter().enumerate() { let mut p = s.get("http://h.test/").prepare(); check(&format!("session {} (seen through a fresh request)", k), &seq, &mut p, m); }
             }
         }
         // next index vector
